@@ -404,8 +404,8 @@ def replay(path):
         recs, _ = vlib.run_driver(exe, vlib.to_script([beh]))
         recs = [norm(r) for r in recs]
         evs = events_of([beh], recs)
-    ok, matched, _ = vlib.validate_trace("Trace_CobsEnc", evs, tag="Trace_CobsEnc_replay")
-    if not ok:
+    rej, _ = tlc_trace("Trace_CobsEnc", evs, "Trace_CobsEnc_replay")
+    for idx in rej:
         print("VIOLATION property=%s replay=%s  (trace rejected at event %d: %s)" %
-              (PID, path, matched, json.dumps(evs[matched])[:600] if matched < len(evs) else "-"))
-    return 0 if ok else 1
+              (PID, path, idx, json.dumps(evs[idx])[:600]))
+    return 1 if rej else 0
